@@ -837,6 +837,7 @@ func (tr *Tr) applyModifies(st *State, items []modItem) {
 				r := f.BoundVar("r", S64)
 				tr.assume(f.Forall([]*Term{r}, f.Implies(f.Neq(tr.rtype(r), tag), f.Eq(f.Select(nh, r), f.Select(old, r))), []*Term{f.Select(nh, r)}),
 					"only objects allocated as "+it.objsOf.String()+" may have changed")
+				tr.frames2[nh] = frameInfo{old: old, typed: map[string]bool{tag.Val.String(): true}}
 				tr.set(st, heapComp(k), nh)
 			}
 		case it.whole:
@@ -883,6 +884,13 @@ func (tr *Tr) callByContract(fr *Frame, site ssa.Instruction, fn *ssa.Function, 
 	if ct.ModSet {
 		items, _ := tr.evalModifies(envPre, ct)
 		tr.applyModifies(post, items)
+		if cc := site.(ssa.CallInstruction); cc != nil && len(ct.Modifies) > 0 {
+			for i, a := range cc.Common().Args {
+				if i < len(args) && isPtr(a.Type()) && len(args[i]) == 2 {
+					tr.typeFrameCheck(fr, site.Pos(), rootOf(a), args[i][0])
+				}
+			}
+		}
 	} else {
 		tr.note("callee contract without modifies clause (heap havocked): " + funcDisplay(fn))
 		tr.havocState(post, "callee "+fn.Name())
@@ -1205,7 +1213,7 @@ func (tr *Tr) callEffectsD(fr *Frame, c *ssa.CallCommon, depth int, argMap map[s
 					if derefDepth(m.Expr) > 1 {
 						eff.all = true
 					} else {
-						addW(c.Args[i], heapKeys)
+						addW(c.Args[i], modKeys(p.Type(), m.Expr))
 					}
 					found = true
 				}
@@ -1436,4 +1444,31 @@ func (tr *Tr) defineResults(env *Env, sig *types.Signature, ct *Contract, res Va
 	for _, e := range ct.Ensures {
 		conj(e.Expr)
 	}
+}
+
+// modKeys: heap keys a modifies item rooted at a parameter of type t can touch.
+func modKeys(t types.Type, e ast.Expr) []string {
+	switch x := e.(type) {
+	case *ast.ParenExpr:
+		return modKeys(t, x.X)
+	case *ast.SliceExpr, *ast.IndexExpr:
+		if el := elemType(t); el != nil && isSlice(t) {
+			return keysOfType(el)
+		}
+	case *ast.StarExpr:
+		if pt, ok := t.Underlying().(*types.Pointer); ok {
+			return keysOfType(pt.Elem())
+		}
+	case *ast.SelectorExpr:
+		if pt, ok := t.Underlying().(*types.Pointer); ok {
+			if st, ok := pt.Elem().Underlying().(*types.Struct); ok {
+				for i := 0; i < st.NumFields(); i++ {
+					if st.Field(i).Name() == x.Sel.Name {
+						return keysOfType(st.Field(i).Type())
+					}
+				}
+			}
+		}
+	}
+	return heapKeys
 }
